@@ -84,10 +84,45 @@ fn laws_for<T: QElem>(cfg: &Cfg, rep: &mut Report, maxn: usize, relabel: &[(&str
     }
 }
 
+/// dense sweep on lanes with ties: Lower <= {Nearest, Midpoint, Linear} <= Higher, inside [min, max], monotone in q
+fn tie_sweep(cfg: &Cfg, rep: &mut Report) {
+    let nq = if cfg.thorough { 400 } else { 200 };
+    let qs: Vec<f64> = (0..=nq).map(|j| j as f64 / nq as f64).collect();
+    let amax = if cfg.thorough { 40 } else { 20 };
+    for n in 2..=4usize { for a in -amax..=amax { for shape in ["const", "tied_middle", "two_levels"] {
+        let lane: Vec<i32> = match shape {
+            "const" => vec![a; n],
+            "tied_middle" => { let mut v = vec![a; n]; v[0] = a - 3; if n > 2 { v[n - 1] = a + 5; } v }
+            _ => (0..n).map(|k| if k % 2 == 0 { a } else { a + 1 }).collect(),
+        };
+        let case = format!("qlaws;tie_sweep;lane={:?}", lane);
+        if !rep.want(cfg, &case) { continue; }
+        let (mn, mx) = (*lane.iter().min().unwrap(), *lane.iter().max().unwrap());
+        let mut bad: Vec<String> = vec![];
+        let mut prev: Vec<Option<i32>> = vec![None; 5];
+        for q in &qs {
+            let r: Vec<Option<i32>> = STRATS.iter().map(|s| q1(&lane, *q, *s).ok()).collect();
+            if let (Some(l), Some(h)) = (r[0], r[1]) {
+                for si in 2..5 { if let Some(m) = r[si] { if m < l || m > h { bad.push(format!("{:?} = {} outside [Lower = {}, Higher = {}] at q = {}", STRATS[si], m, l, h, q)); } } }
+            }
+            for si in 0..5 {
+                match r[si] { None => bad.push(format!("{:?} failed at q = {}", STRATS[si], q)),
+                    Some(v) => { if v < mn || v > mx { bad.push(format!("{:?} = {} leaves [min, max] at q = {}", STRATS[si], v, q)); }
+                                 if let Some(p) = prev[si] { if v < p { bad.push(format!("{:?} decreases at q = {}", STRATS[si], q)); } } } }
+            }
+            prev = r;
+            if bad.len() > 4 { break; }
+        }
+        if !bad.is_empty() { rep.fail(cfg, &case, &bad[0].clone(), json!({"problems": bad})); }
+        rep.eval(&case, true);
+    }}}
+}
+
 /// C19: order laws of quantiles, no oracle
 pub fn qlaws(cfg: &mut Cfg, rep: &mut Report) {
+    tie_sweep(cfg, rep);
     let maxn = if cfg.thorough { 5 } else { 4 };
-    rep.bound = format!("lanes of length 1..={} over 4-letter alphabets (i32, i8 with type extremes, N64), dense q grid around every k/(N-1), five strategies, every permutation for N <= 4, two strictly increasing relabellings", maxn);
+    rep.bound = format!("lanes of length 1..={} over 4-letter alphabets (i32, i8 with type extremes, N64), dense q grid around every k/(N-1), five strategies, every permutation for N <= 4, two strictly increasing relabellings; tie sweep: constant / tied-middle / two-level i32 lanes of length 2..4 with values in -20..20 (40 thorough) at q = j/200 (400 thorough)", maxn);
     laws_for::<i32>(cfg, rep, maxn, &[("3x+1", |x| 3 * x + 1), ("x^3", |x| x * x * x)]);
     laws_for::<i8>(cfg, rep, maxn.min(4), &[("x/2 (monotone on the alphabet)", |x| if *x == i8::MIN { -100 } else if *x == -1 { -50 } else if *x == 2 { 0 } else { 100 })]);
     laws_for::<N64>(cfg, rep, maxn.min(4), &[("2x+1", |x| *x * n64(2.0) + n64(1.0))]);
